@@ -64,6 +64,7 @@ type hdrSpec struct {
 	Bks        []int     `json:"bookkeepers"`
 	Sigs       []sigSpec `json:"sigs"`
 	Salt       uint64    `json:"salt"` // ConsensusData, makes hashes distinct
+	BlockRoot  bool      `json:"block_root,omitempty"` // carry the block merkle root a block at this height must have
 }
 
 type chainEnt struct {
@@ -86,6 +87,7 @@ type env struct {
 	nextID  int
 	chain   []*chainEnt // index = height
 	peers   mPeers      // vbftPeerInfoMap as last observed
+	roots   map[uint32]common.Uint256 // block roots computed so far, by height (see hdrSpec.BlockRoot)
 	writer  map[uint32]string // per height: was the current entry written by an "accepted" or a "rejected" verifyHeader call ("init": at load)
 	history []step      // state-changing operations so far (replayable)
 	vcache  map[string]bool
@@ -144,7 +146,7 @@ func newEnv(dir string) (*env, error) {
 		return nil, err
 	}
 	e := &env{dir: dir, keys: newKeys(), idOf: map[string]int{}, hashID: map[common.Uint256]int{}, nextID: 99,
-		vcache: map[string]bool{}}
+		vcache: map[string]bool{}, roots: map[uint32]common.Uint256{}}
 	for _, k := range e.keys {
 		e.idOf[k.hexid] = k.id
 		up := strings.ToUpper(k.hexid)
@@ -255,6 +257,14 @@ func (e *env) build(sp *hdrSpec) (*types.Header, *mHeader) {
 	}
 	h := &types.Header{Version: 0, PrevBlockHash: prev, Timestamp: sp.Time, Height: sp.Height,
 		ConsensusData: sp.Salt, ConsensusPayload: e.payload(sp)}
+	if sp.BlockRoot {
+		root, ok := e.roots[sp.Height]
+		if !ok && sp.Height == e.store.GetCurrentBlockHeight()+1 {
+			root = e.store.GetBlockRootWithNewTxRoots(sp.Height, []common.Uint256{{}})
+			e.roots[sp.Height] = root
+		}
+		h.BlockRoot = root
+	}
 	hash := h.Hash()
 	m := &mHeader{Height: sp.Height, Prev: e.hid(prev), Time: sp.Time, InfoOK: !sp.BadPayload, Last: sp.Last,
 		Cfg: sp.Cfg, Bks: append([]int{}, sp.Bks...), Hash: e.hid(hash)}
